@@ -321,6 +321,42 @@ func runC03(c *Ctx) {
 			c.Undecided(fname(jvcFn)+"#commit-sites", jvcFn.Pos(), "no call of commit found in judgeVoteCount")
 		}
 	}
+
+	// ------------------------------------------------------------ Q12
+	c.Rule("C03.Q12", "GATE", "the votes attached to a committed header all belong to the round index it was committed in: (*Server).updateBlockHeader — which merges late precommits into a stored header and writes it back — reaches the write (UpdateExistedHeader) only on paths that compared the event's round index with the round index recorded in the stored header and found them equal. A block carried over from index a and committed at index b otherwise gets one more index-a precommit merged in: that vote signs another payload and carries another sortition proof, the aggregate no longer verifies and syncing peers reject the canonical block")
+	c.Min(1)
+	{
+		ub := w.Fn(uconPkg, "Server", "updateBlockHeader")
+		c.sawFunc(fname(ub))
+		n := 0
+		for _, ci := range callInstrs(ub) {
+			o := calleeObj(ci)
+			if o == nil || o.Name() != "UpdateExistedHeader" {
+				continue
+			}
+			n++
+			c.sites++
+			same := false
+			for _, a := range atomsOf(factsAtInstr(ci.(ssa.Instruction))) {
+				if a.Kind != "eq" || !a.Truth || a.Y == nil {
+					continue
+				}
+				fx, _ := loadedField(stripConv(a.X))
+				fy, _ := loadedField(stripConv(a.Y))
+				if fx == nil || fy == nil || fx.Name() != "RoundIndex" || fy.Name() != "RoundIndex" {
+					continue
+				}
+				ox, oy := fieldOwner(w, fx), fieldOwner(w, fy)
+				if ox != oy && (ox == "UpdateExistedHeaderEvent" || oy == "UpdateExistedHeaderEvent") {
+					same = true
+				}
+			}
+			c.Check(fmt.Sprintf("%s#merges-only-votes-of-the-header's-round-index-%d", fname(ub), n), ci.Pos(), same, ifelse(same, "ev.RoundIndex == stored header's round index dominates the write-back", "late votes are merged into a stored header without comparing their round index with the one the header was committed in: the canonical header then fails verification (signature mismatch)"))
+		}
+		if n == 0 {
+			c.Undecided(fname(ub)+"#write-back", ub.Pos(), "the write-back of the merged header was not found")
+		}
+	}
 }
 
 func c03Q8(c *Ctx, w *World, pvm *ssa.Function, jvcObj *types.Func) {
